@@ -18,10 +18,16 @@
 #include <cstdio>
 #include <cstring>
 #include <cerrno>
+#include "args_kernel.h"
+// vfork cannot be wrapped by a function (the child would return into a dead frame): the vfork of
+// Process.cpp is routed through a macro that lets the recorder fail it (EAGAIN) or note it.  A
+// function-like macro is not expanded inside its own expansion, so the inner vfork() is libc's.
+#define vfork() (vk_vfork_fails() ? (pid_t)-1 : vfork())
 #define private public
 #include <nstd/Process.hpp>
 #include <Process.cpp>
 #undef private
+#undef vfork
 #include <nstd/List.hpp>
 #include <nstd/Map.hpp>
 
@@ -50,9 +56,16 @@ static void puthexs(const char* s, size_t n)
   for(size_t i = 0; i < n; ++i) printf("%02x", (unsigned char)s[i]);
 }
 
+static int p_code = 0, p_mode = 0;          // case <n> P <exit code> <mode>: the script of the helper child
+static void env_reset();
+static void pobj_reset();
+
 // case <n> T <char>:<name hex or ~>:<flags> ...      (the option table is the case configuration)
 static void begin(long, vh::Tok& t)
 {
+  env_reset(); pobj_reset();
+  p_code = p_mode = 0;
+  if(t.n >= 5 && !strcmp(t.v[2], "P")) { p_code = atoi(t.v[3]); p_mode = atoi(t.v[4]); return; }
   for(int i = 0; i < ntable; ++i) free((void*)table[i].name);
   for(int i = 0; i < nstrs; ++i) free(strs[i]);
   for(int i = 0; i < nenv; ++i) { free(envk[i]); free(envv[i]); }
@@ -480,7 +493,268 @@ static void do_launch(long c, vh::Tok& t)
   free(out.d); free(errb.d); free(payload); free(first);
 }
 
+
+// ---- D: the process environment --------------------------------------------------------------
+// ev <hex>   one string of the environment the case starts with (installed as ::environ at the
+//            first environment operation; the harness's own environment is put back at the end)
+enum { MAXEV = 64 };
+static char* evs[MAXEV]; static int nevs = 0;
+static char** saved_environ = 0; static bool env_installed = false;
+
+static void env_install()
+{
+  if(env_installed) return;
+  char** arr = (char**)malloc(sizeof(char*) * (nevs + 1));     // exact size; glibc copies it before changing it
+  for(int i = 0; i < nevs; ++i) arr[i] = evs[i];
+  arr[nevs] = 0;
+  saved_environ = environ;
+  environ = arr;
+  env_installed = true;
+}
+static void env_reset()
+{
+  if(env_installed) { environ = saved_environ; env_installed = false; }
+  nevs = 0;                                                      // the strings stay allocated (glibc may still point at them)
+}
+static String str_of_hex(const char* hex)
+{
+  size_t n; unsigned char* b = vh::unhex(hex, n, 1);
+  String r((const char*)b, n);
+  free(b);
+  return r;
+}
+static void put_environ_raw()
+{
+  if(!environ || !environ[0]) { printf("none"); return; }
+  for(int i = 0; environ[i]; ++i) { if(i) printf(","); puthexs(environ[i], strlen(environ[i])); }
+}
+static int cmp_entry_key(const void* a, const void* b)
+{
+  const unsigned char* x = *(const unsigned char* const*)a; const unsigned char* y = *(const unsigned char* const*)b;
+  for(;; ++x, ++y) {
+    bool ex = *x == '=' || !*x, ey = *y == '=' || !*y;
+    if(ex || ey) return ex ? (ey ? 0 : -1) : 1;
+    if(*x != *y) return *x < *y ? -1 : 1;
+  }
+}
+
+static void do_env(long c, vh::Tok& t)
+{
+  env_install();
+  const char* o = t.v[0];
+  if(!strcmp(o, "eget") && t.n >= 3) {
+    String v = Process::getEnvironmentVariable(str_of_hex(t.v[1]), str_of_hex(t.v[2]));
+    printf("%ld get ", c); puthexs((const char*)v, v.length()); printf("\n");
+  } else if(!strcmp(o, "eset") && t.n >= 3) {
+    bool ok = Process::setEnvironmentVariable(str_of_hex(t.v[1]), str_of_hex(t.v[2]));
+    printf("%ld set %d | ", c, ok ? 1 : 0); put_environ_raw(); printf("\n");
+  } else if(!strcmp(o, "evars")) {
+    Map<String, String> m = Process::getEnvironmentVariables();
+    printf("%ld vars ", c);
+    if(m.isEmpty()) printf("none");
+    bool first = true;
+    for(Map<String, String>::Iterator i = m.begin(), end = m.end(); i != end; ++i) {
+      if(!first) printf(","); first = false;
+      puthexs((const char*)i.key(), i.key().length()); printf(":"); puthexs((const char*)*i, i->length());
+    }
+    printf("\n");
+  } else if(!strcmp(o, "echild")) {
+    // a child started with an empty environment map inherits ::environ: it echoes what it got
+    FILE* f = fopen("./ac.ctl", "w"); fprintf(f, "0 0\n"); fclose(f);
+    fflush(stdout);
+    Process* p = new Process;
+    Buf out = {0, 0, 0};
+    bool ok = p->open(String(CHILD_PATH, strlen(CHILD_PATH)), Process::stdoutStream);
+    if(ok) {
+      static unsigned char rb[65536];
+      for(;;) { ssize r = p->read(rb, sizeof(rb)); if(r < 0 && errno == EINTR) continue; if(r <= 0) break; buf_add(out, rb, (size_t)r); }
+    }
+    uint32 code = 777; bool joined = ok && p->join(code);
+    delete p;
+    if(!ok || !joined || code != 0) { printf("%ld child ! %d %d %u\n", c, ok ? 1 : 0, joined ? 1 : 0, (unsigned)code); free(out.d); return; }
+    // E lines, raw order; then those with '=' sorted by name
+    char* lines[256]; int nl = 0;
+    size_t i = 0;
+    while(i < out.n && nl < 256) {
+      size_t j = i; while(j < out.n && out.d[j] != '\n') ++j;
+      if(j - i == 1 && out.d[i] == '.') break;
+      if(j - i >= 2 && out.d[i] == 'E' && out.d[i + 1] == ' ') {
+        out.d[j] = 0;
+        size_t n; lines[nl++] = (char*)vh::unhex((const char*)out.d + i + 2, n, 1);
+      }
+      i = j + 1;
+    }
+    char* vis[256]; int nv = 0;
+    for(int k = 0; k < nl; ++k) if(strchr(lines[k], '=')) vis[nv++] = lines[k];
+    qsort(vis, (size_t)nv, sizeof(char*), cmp_entry_key);
+    printf("%ld child ", c);
+    if(!nv) printf("none");
+    for(int k = 0; k < nv; ++k) { if(k) printf(","); puthexs(vis[k], strlen(vis[k])); }
+    printf(" | ");
+    if(!nl) printf("none");
+    for(int k = 0; k < nl; ++k) { if(k) printf(","); puthexs(lines[k], strlen(lines[k])); }
+    printf("\n");
+    for(int k = 0; k < nl; ++k) free(lines[k]);
+    free(out.d);
+  }
+}
+
+// ---- E: the Process object -------------------------------------------------------------------
+// One object per case (a new one after pdel).  Around every call the recorder of args_kernel.cpp
+// logs the system calls the Process code makes; failures are injected through it.  Descriptor 0
+// of the harness is a scratch file for the time of the case, so that a read()/write() that goes to
+// descriptor 0 is seen (the file offset moves).  The number of open descriptors of the harness
+// process is counted in /proc/self/fd before the case and after every call.
+static Process* pp = 0;
+static bool p_ready = false;
+static int p_base = 0, p_save0 = -1;
+static pid_t p_live = 0;                   // child started and not known to be reaped
+static bool p_intr = false;                // an interrupt() that no wait() has consumed yet
+static bool p_waited = false;              // wait() or interrupt() was called in this case
+
+static void stdin_scratch()
+{
+  int fd = ::open("./ac.in", O_CREAT | O_TRUNC | O_RDWR, 0600);
+  char fill[64]; memset(fill, 'x', sizeof(fill));
+  if(::write(fd, fill, sizeof(fill)) != (ssize_t)sizeof(fill)) { }
+  lseek(fd, 0, SEEK_SET);
+  if(fd != 0) { dup2(fd, 0); ::close(fd); }
+}
+static void pobj_setup()
+{
+  if(p_ready) return;
+  p_ready = true;
+  FILE* f = fopen("./ac.ctl", "w"); fprintf(f, "%d %d\n", p_code, p_mode); fclose(f);
+  fflush(stdout);
+  p_save0 = dup(0);
+  stdin_scratch();
+  vk_begin_case();
+  p_base = vk_count_fds();
+}
+static void reap_live()
+{
+  if(p_live > 0) { ::kill(p_live, SIGKILL); int st; waitpid(p_live, &st, 0); p_live = 0; }
+}
+static void pobj_reset()
+{
+  if(!p_ready) return;
+  if(pp) { if(p_live > 0) ::kill(p_live, SIGKILL); delete pp; pp = 0; }
+  reap_live();
+  // Process::wait/interrupt keep two static variables: bring them back to their initial values through the interface
+  // (an interrupt is pending after this call at the latest; the wait consumes it and returns at once)
+  if(p_waited) { Process::interrupt(); Process::wait(0, 0); p_waited = false; }
+  p_intr = false;
+  dup2(p_save0, 0); ::close(p_save0); p_save0 = -1;
+  p_ready = false;
+}
+static bool has_flag(vh::Tok& t, const char* f) { for(int i = 1; i < t.n; ++i) if(!strcmp(t.v[i], f)) return true; return false; }
+static const char* io_class(ssize r, int err) { return r > 0 ? "data" : r == 0 ? "eof" : err == EINVAL ? "refused" : "err"; }
+
+static void do_pobj(long c, vh::Tok& t)
+{
+  pobj_setup();
+  const char* o = t.v[0];
+  if(!strcmp(o, "psig")) {                  // the harness (not the library) signals the child and waits until it is dead
+    if(pp && pp->pid) { ::kill((pid_t)pp->pid, atoi(t.v[1])); siginfo_t si; waitid(P_PID, (id_t)pp->pid, &si, WEXITED | WNOWAIT); }
+    return;
+  }
+  if(!pp) pp = new Process;
+  bool launch = !strcmp(o, "popen") || !strcmp(o, "pstart");
+  bool fd0 = has_flag(t, "fd0");
+  unsigned streams = (t.n >= 2 && (launch || !strcmp(o, "pclose") || !strcmp(o, "pread2"))) ? (unsigned)atoi(t.v[1]) : 0;
+  char res[64]; res[0] = 0;
+  static char buf[65536];
+  int s1 = -1, s2 = -1;
+  {                                         // descriptor 0: the scratch file with its 64 bytes, offset 0
+    char fill[64]; memset(fill, 'x', sizeof(fill));
+    if(ftruncate(0, 0) != 0 || lseek(0, 0, SEEK_SET) != 0 || ::write(0, fill, sizeof(fill)) != (ssize_t)sizeof(fill)) { }
+    lseek(0, 0, SEEK_SET);
+  }
+  if(launch) {                              // a stream that is not redirected must not end up in the observations
+    fflush(stdout); fflush(stderr);
+    s1 = dup(1); s2 = dup(2);
+    int n = ::open("/dev/null", O_WRONLY); dup2(n, 1); dup2(n, 2); ::close(n);
+  }
+  if(fd0) ::close(0);
+  for(int k = 1; k <= 3; ++k) { char f[16]; snprintf(f, sizeof(f), "pipefail%d", k); if(has_flag(t, f)) vk_inject(VK_PIPEFAIL, k); }
+  if(has_flag(t, "dupfail")) vk_inject(VK_DUPFAIL, 0);
+  if(has_flag(t, "waitfail")) vk_inject(VK_WAITFAIL, 0);
+  if(has_flag(t, "vforkfail")) vk_inject(VK_VFORKFAIL, 0);
+  errno = 0;
+  vk_enter();
+  if(!strcmp(o, "popen")) {
+    char* none[1] = {0};
+    bool ok = pp->open(String(CHILD_PATH, strlen(CHILD_PATH)), 1, none, streams);
+    int e = errno;
+    snprintf(res, sizeof(res), "%s", ok ? "1" : e == EINVAL ? "refused" : "0");
+  } else if(!strcmp(o, "pstart")) {
+    char* none[1] = {0};
+    uint32 r = pp->start(String(CHILD_PATH, strlen(CHILD_PATH)), 1, none);
+    int e = errno;
+    snprintf(res, sizeof(res), "%s", r ? "1" : e == EINVAL ? "refused" : "0");
+  } else if(!strcmp(o, "pjoin")) {
+    uint32 code = 777;
+    bool ok = pp->join(code);
+    int e = errno;
+    if(ok) snprintf(res, sizeof(res), "1:%u", (unsigned)code); else snprintf(res, sizeof(res), "%s", e == EINVAL ? "refused" : "0");
+  } else if(!strcmp(o, "pjoin0")) {          // join() without an exit code
+    bool ok = pp->join();
+    int e = errno;
+    snprintf(res, sizeof(res), "%s", ok ? "1" : e == EINVAL ? "refused" : "0");
+  } else if(!strcmp(o, "pwait")) {           // Process::wait on this one object: the object, or 0 (interrupted / no child)
+    Process* which = Process::wait(&pp, 1);
+    p_intr = false; p_waited = true;
+    snprintf(res, sizeof(res), "%s", which == pp ? "1" : which ? "other" : "0");
+  } else if(!strcmp(o, "pintr")) {           // Process::interrupt(): the next wait returns 0 at once
+    Process::interrupt();
+    p_intr = true; p_waited = true;
+    snprintf(res, sizeof(res), "-");
+  } else if(!strcmp(o, "pkill")) {
+    bool ok = pp->kill();
+    int e = errno;
+    snprintf(res, sizeof(res), "%s", ok ? "1" : e == EINVAL ? "refused" : "0");
+  } else if(!strcmp(o, "pclose")) {
+    pp->close(streams);
+    snprintf(res, sizeof(res), "-");
+  } else if(!strcmp(o, "pread")) {
+    ssize r = pp->read(buf, sizeof(buf));
+    snprintf(res, sizeof(res), "%s", io_class(r, errno));
+  } else if(!strcmp(o, "pread2")) {
+    uint s = streams;
+    ssize r = pp->read(buf, sizeof(buf), s);
+    int e = errno;
+    if(r >= 0) snprintf(res, sizeof(res), "%s:%u", io_class(r, e), (unsigned)s); else snprintf(res, sizeof(res), "%s", io_class(r, e));
+  } else if(!strcmp(o, "pwrite")) {
+    size_t n = t.n >= 2 ? (size_t)atol(t.v[1]) : 1;
+    if(n > sizeof(buf)) n = sizeof(buf);
+    memset(buf, 'w', n);
+    ssize r = pp->write(buf, n);
+    snprintf(res, sizeof(res), "%s", io_class(r, errno));
+  } else if(!strcmp(o, "prun")) {
+    snprintf(res, sizeof(res), "%d", pp->isRunning() ? 1 : 0);
+  } else if(!strcmp(o, "pdel")) {
+    delete pp; pp = 0;
+    snprintf(res, sizeof(res), "-");
+  } else snprintf(res, sizeof(res), "?unknown-op");
+  vk_leave();
+  long in0 = fd0 ? 0 : (long)lseek(0, 0, SEEK_CUR);
+  // with descriptor 0 closed for the call, the count is taken before it is put back: a pipe end left on 0 counts
+  int count_now = vk_count_fds() + (fd0 ? 1 : 0);      // the harness itself closed descriptor 0 for this call
+  if(fd0) stdin_scratch();                  // descriptor 0 of the harness is back
+  if(launch) { dup2(s1, 1); dup2(s2, 2); ::close(s1); ::close(s2); }
+  const char* lg = vk_log();
+  if(launch && pp && pp->pid) p_live = (pid_t)pp->pid;
+  if(strstr(lg, "wait:ok")) p_live = 0;
+  int held = count_now - p_base - ((launch) ? 2 : 0);      // s1/s2 (the saved stdout/stderr) were still open when counted
+  printf("%ld %s %s run %d held %d stray %d in0 %ld | out=%d err=%d in=%d | %s\n", c, o, res,
+         pp && pp->isRunning() ? 1 : 0, held, vk_stray(), in0,
+         pp && pp->fdStdOutRead ? 1 : 0, pp && pp->fdStdErrRead ? 1 : 0, pp && pp->fdStdInWrite ? 1 : 0, lg);
+  if(!pp) reap_live();                      // a destructor whose waitpid was made to fail leaves the child behind
+}
+
 // ---- dispatch ----------------------------------------------------------------------------------
+static void end_case(long) { env_reset(); pobj_reset(); }
+
 static void op(long c, long, vh::Tok& t)
 {
   if(!strcmp(t.v[0], "s") && t.n >= 2) {
@@ -497,6 +771,14 @@ static void op(long c, long, vh::Tok& t)
     do_split(c, t.v[1]);
   } else if(!strcmp(t.v[0], "launch") && t.n >= 9) {
     do_launch(c, t);
+  } else if(!strcmp(t.v[0], "rt") && t.n >= 2) {
+    do_split(c, t.v[1]);                      // rt <joined> <word>...: the words are for the model/reference side
+  } else if(!strcmp(t.v[0], "ev") && t.n >= 2) {
+    if(nevs < MAXEV) evs[nevs++] = cstr_exact(t.v[1]);
+  } else if(t.v[0][0] == 'e' && (!strcmp(t.v[0], "eget") || !strcmp(t.v[0], "eset") || !strcmp(t.v[0], "evars") || !strcmp(t.v[0], "echild"))) {
+    do_env(c, t);
+  } else if(t.v[0][0] == 'p' && strcmp(t.v[0], "parse") && strcmp(t.v[0], "parse0")) {
+    do_pobj(c, t);
   } else {
     printf("%ld ?unknown-op\n", c);
   }
@@ -508,5 +790,5 @@ int main(int argc, char** argv)
   struct sigaction sa; memset(&sa, 0, sizeof(sa));
   sa.sa_handler = on_vtalrm;
   sigaction(SIGVTALRM, &sa, 0);
-  return vh::run(argc, argv, begin, op, 0);
+  return vh::run(argc, argv, begin, op, end_case);
 }
